@@ -126,8 +126,9 @@ def crystal_descs(draw, sgs=None, max_orbits=3, force_letters=None, anchor=None)
         if m > budget and orbits:
             continue
         budget -= m
-        orbits.append({"letter": l, "q": [draw(qfloat) for _ in range(3)], "Z": z})
-    raw = [draw(gc.ffloat(3.5, 9.0)) for _ in range(3)] + [draw(gc.ffloat(75.0, 105.0)) for _ in range(3)]
+        k0 = 3 * len(orbits)
+        orbits.append({"letter": l, "q": [gc.generic(draw, k0 + j, 0.05, 0.95) for j in range(3)], "Z": z})
+    raw = [gc.generic(draw, 17 + j, 3.5, 9.0) for j in range(3)] + [gc.generic(draw, 20 + j, 75.0, 105.0) for j in range(3)]
     return {"sg": sg, "orbits": orbits, "raw": raw}
 
 
